@@ -29,7 +29,8 @@ def sh(cmd, cwd=None, timeout=1800):
 
 def run_tests(wt, name=None):
     # own network namespace: the socket tests bind fixed ports from 7888 upwards
-    cmd = "unshare -n sh -c 'ip link set lo up; cargo test --offline %s -- --test-threads 1'" % (name or '')
+    # the target directory is shared between runs: build + run of one tree must not interleave with another's
+    cmd = "flock /tmp/seedcheck-target.lock unshare -n sh -c 'ip link set lo up; cargo test --offline %s -- --test-threads 1'" % (name or '')
     rc, out = sh(cmd, cwd=wt)
     res = {}
     for l in out.splitlines():
